@@ -123,26 +123,32 @@ Value& MemberINSERTExpression::value(Context& ctx) const
       switch (rv_type.major())
       {
       case Type::INTEGER:
-        if (a1_type == Type::NUMERIC)
+        if (a1_type == Type::NUMERIC && rv_type.level() == 1)
         {
-          rv->insert(rv->begin() + p, Value(Value::integerOf(*a1.numeric())));
+          if (a1.isNull())
+            rv->insert(rv->begin() + p, Value(Value::type_integer));
+          else
+            rv->insert(rv->begin() + p, Value(Value::integerOf(*a1.numeric())));
           return val;
         }
         else if (a1.type() == Type::NO_TYPE)
         {
-          rv->insert(rv->begin() + p, Value(Value::type_integer));
+          rv->insert(rv->begin() + p, Value(rv_type.levelDown()));
           return val;
         }
         break;
       case Type::NUMERIC:
-        if (a1_type == Type::INTEGER)
+        if (a1_type == Type::INTEGER && rv_type.level() == 1)
         {
-          rv->insert(rv->begin() + p, Value(Numeric(*a1.integer())));
+          if (a1.isNull())
+            rv->insert(rv->begin() + p, Value(Value::type_numeric));
+          else
+            rv->insert(rv->begin() + p, Value(Numeric(*a1.integer())));
           return val;
         }
         else if (a1.type() == Type::NO_TYPE)
         {
-          rv->insert(rv->begin() + p, Value(Value::type_numeric));
+          rv->insert(rv->begin() + p, Value(rv_type.levelDown()));
           return val;
         }
         break;
